@@ -9,16 +9,12 @@
    attribute nodes, then its children — the numbering of harness/pat.cpp).  A parent link is only
    honoured when it points to a smaller index, so every walk towards the root terminates.
 
-   Quirks of the code kept on purpose (each is one line here; see Properties_C09.v):
-     Q1  child-axis node() accepts the document node (testNode has no node-type condition) and
-         stepPattern returns "match" when the context runs out right below the outermost step;
-     Q2  an attribute step never checks that the node is an attribute, so @text(), @comment(),
-         @processing-instruction() accept text/comment/PI nodes;
-     Q3  the forward re-run of an attribute step (handleFoundIndex -> step -> findAttributes) builds its
-         NodeTester with step type MATCH_ATTRIBUTE, for which a name test is an *element* name test:
-         the re-run is empty for @name / @* ;
+   Quirk of the code kept on purpose (see Properties_C09.v):
      Q4  an any-ancestor step takes the nearest ancestor that satisfies it and never backtracks, and
-         FROM_ROOT followed by an any-ancestor step just walks up to the root (K14, K15). *)
+         FROM_ROOT followed by an any-ancestor step just walks up to the root (K14, K15).
+   Repaired in /repo and modelled as repaired (commits 705d3a6, cb2fe18, 335a1a5): a child-axis step
+   never accepts the document node; an attribute step only accepts attribute nodes; the forward re-run
+   of an attribute step tests attributes by attribute name. *)
 From Coq Require Import List Bool Arith.
 Import ListNotations.
 
@@ -87,12 +83,13 @@ Fixpoint keep_from (p : predi) (size i : nat) (l : list nat) : list nat :=
 Definition keep (p : predi) (l : list nat) : list nat := keep_from p (length l) 1 l.
 Definition apply_preds (ps : list predi) (l : list nat) : list nat := fold_left (fun l p => keep p l) ps l.
 
-(* NodeTester for the child-like step types (FROM_CHILDREN, MATCH_IMMEDIATE_ANCESTOR, MATCH_ANY_ANCESTOR and variants) *)
+(* NodeTester for the child-like step types (FROM_CHILDREN, MATCH_IMMEDIATE_ANCESTOR, MATCH_ANY_ANCESTOR
+   and variants) *)
 Definition child_test (t : ntest) (k : kind) : bool :=
   match t, k with
   | TName n, KElem m => n =? m
   | TWild, KElem _ => true
-  | TNode, _ => true                                   (* testNode: any node type — Q1 *)
+  | TNode, _ => true                                   (* testNode: any node type *)
   | TText, KText => true
   | TComment, KComment => true
   | TPI, KPI _ => true
@@ -100,28 +97,9 @@ Definition child_test (t : ntest) (k : kind) : bool :=
   | _, _ => false
   end.
 
-(* NodeTester built with step type FROM_ATTRIBUTES (stepPattern's MATCH_ATTRIBUTE case does that) *)
-Definition attr_test_matcher (t : ntest) (k : kind) : bool :=
-  match t, k with
-  | TName n, KAttr m => n =? m
-  | TWild, KAttr _ => true
-  | TNode, KAttr _ => true
-  | TText, KText => true                               (* Q2 *)
-  | TComment, KComment => true                         (* Q2 *)
-  | TPI, KPI _ => true                                 (* Q2 *)
-  | TPIName n, KPI m => n =? m                         (* Q2 *)
-  | _, _ => false
-  end.
-
-(* NodeTester built with step type MATCH_ATTRIBUTE, applied to attribute nodes (the re-run) — Q3 *)
-Definition attr_test_rerun (t : ntest) (k : kind) : bool :=
-  match t, k with
-  | TNode, KAttr _ => true
-  | _, _ => false
-  end.
-
-(* the attribute axis of XPath: principal node type attribute *)
-Definition attr_test_spec (t : ntest) (k : kind) : bool :=
+(* NodeTester for FROM_ATTRIBUTES / MATCH_ATTRIBUTE applied to a node of type ATTRIBUTE_NODE
+   (namespace declarations, KNs, are attribute nodes that no test accepts) *)
+Definition attr_test (t : ntest) (k : kind) : bool :=
   match t, k with
   | TName n, KAttr m => n =? m
   | TWild, KAttr _ => true
@@ -142,7 +120,7 @@ Definition pattern := list path.                       (* union *)
 Definition spec_step (D : doc) (st : sstep) (c : nat) : list nat :=
   apply_preds (s_preds st)
     (if s_attr st
-     then filter (fun m => attr_test_spec (s_test st) (kind_of D m)) (attributes D c)
+     then filter (fun m => attr_test (s_test st) (kind_of D m)) (attributes D c)
      else filter (fun m => child_test (s_test st) (kind_of D m)) (children D c)).
 
 (* descendant-or-self::node() *)
@@ -174,8 +152,8 @@ Inductive mstep :=
   | MAnyFn                                             (* MATCH_ANY_ANCESTOR_WITH_FUNCTION_CALL *)
   | MRoot                                              (* FROM_ROOT *)
   | MAttr (t : ntest) (ps : list predi)                (* MATCH_ATTRIBUTE *)
-  | MAny (t : ntest) (ps : list predi)                 (* MATCH_ANY_ANCESTOR; MAny TNode [] is also the
-                                                          MATCH_ANY_ANCESTOR_WITH_PREDICATE of a leading '//' *)
+  | MAnyWP                                             (* MATCH_ANY_ANCESTOR_WITH_PREDICATE + node(): leading '//' *)
+  | MAny (t : ntest) (ps : list predi)                 (* MATCH_ANY_ANCESTOR *)
   | MImm (t : ntest) (ps : list predi).                (* MATCH_IMMEDIATE_ANCESTOR *)
 
 Definition next_is_desc (r : list (sep * sstep)) : bool :=
@@ -196,7 +174,7 @@ Fixpoint compile_steps (steps : list (sep * sstep)) : list mstep :=
 Definition compile (p : path) : list mstep :=
   (match p_head p with
    | HRel => []
-   | HAbs => if next_is_desc (p_steps p) then [MAny TNode []] else [MRoot]
+   | HAbs => if next_is_desc (p_steps p) then [MAnyWP] else [MRoot]
    | HFunc fs => if next_is_desc (p_steps p) then [MFunc fs; MAnyFn] else [MFunc fs]
    end) ++ compile_steps (p_steps p).
 
@@ -205,7 +183,7 @@ Definition compile (p : path) : list mstep :=
 Definition rerun_step (D : doc) (attr : bool) (t : ntest) (ps : list predi) (p : nat) : list nat :=
   apply_preds ps
     (if attr
-     then filter (fun m => attr_test_rerun t (kind_of D m)) (attributes D p)
+     then filter (fun m => attr_test t (kind_of D m)) (attributes D p)
      else filter (fun m => child_test t (kind_of D m)) (children D p)).
 
 (* handleFoundIndex *)
@@ -232,15 +210,15 @@ Fixpoint do_preds (fi : bool) (ps : list predi) (c : nat) (score : bool) : bool 
   end.
 
 Definition is_anyfn (s : mstep) : bool := match s with MAnyFn => true | _ => false end.
-Definition is_any (s : mstep) : bool := match s with MAny _ _ => true | _ => false end.
+Definition is_any (s : mstep) : bool := match s with MAny _ _ | MAnyWP => true | _ => false end.
 Definition head_is_any (l : list mstep) : bool := match l with s :: _ => is_any s | [] => false end.
 Definition head_is_anyfn (l : list mstep) : bool := match l with s :: _ => is_anyfn s | [] => false end.
 
 (* one step tested at context c (the switch of stepPattern followed by the predicate loop);
    returns (context handed to the caller, score <> eMatchScoreNone) *)
 Definition step_ok (D : doc) (attr : bool) (t : ntest) (ps : list predi) (c : nat) : bool :=
-  (if attr then attr_test_matcher t (kind_of D c)
-   else negb (is_attr (kind_of D c)) && child_test t (kind_of D c))
+  (if attr then attr_test t (kind_of D c)                  (* only tried on ATTRIBUTE_NODE; attr_test is false elsewhere *)
+   else negb (is_attr (kind_of D c)) && negb (is_root (kind_of D c)) && child_test t (kind_of D c))
   && do_preds (found_index D attr t ps c) ps c true.
 
 Definition body (D : doc) (st : mstep) (rest : list mstep) (c : nat) : option nat * bool :=
@@ -261,11 +239,13 @@ Definition body (D : doc) (st : mstep) (rest : list mstep) (c : nat) : option na
                 | None => (None, false)
                 end
            else (Some c, false)
+  | MAnyWP =>                                          (* node() on the context itself: always the first hit *)
+      if is_attr (kind_of D c) then (Some c, false) else (Some c, true)
   | MAttr t ps => (Some c, step_ok D true t ps c)
   | MImm t ps => (Some c, step_ok D false t ps c)
   | MAny t ps =>
       if is_attr (kind_of D c) then (Some c, false)
-      else match find (fun a => child_test t (kind_of D a)
+      else match find (fun a => negb (is_root (kind_of D a)) && child_test t (kind_of D a)
                                 && do_preds (found_index D false t ps a) ps a true) (aos D c) with
            | Some a => (Some a, true)                  (* nearest ancestor-or-self satisfying the step *)
            | None => (None, false)
@@ -285,7 +265,7 @@ Fixpoint step_pattern (D : doc) (steps : list mstep) (ctx : nat) : option nat * 
                  | (Some c, true) =>
                      match (if is_anyfn nxt then Some c else parent D c) with
                      | Some c' => inl c'
-                     | None => inr (None, true)        (* Q1: "return 0" with scoreHolder left at Other *)
+                     | None => inr (None, false)       (* no node left for this step *)
                      end
                  | _ => inr (None, false)
                  end
@@ -317,22 +297,7 @@ Definition no_left_of_any (p : path) : bool :=
   | _, l => desc_then_child l
   end.
 
-(* G2 (Q1): no child-axis node() step *)
-Definition no_child_node_test (st : sstep) : bool :=
-  s_attr st || match s_test st with TNode => false | _ => true end.
-(* G3 (Q2, Q3): attribute steps use a name test, '*' or node(); with a name test or '*' none of
-   their predicates is positional or number-typed *)
-Definition attr_step_plain (st : sstep) : bool :=
-  negb (s_attr st) ||
-  match s_test st with
-  | TNode => true
-  | TName _ | TWild => forallb (fun p => negb (pfl p) && negb (pnum p)) (s_preds st)
-  | _ => false
-  end.
-Definition steps_guard (p : path) : bool :=
-  forallb (fun s => no_child_node_test (snd s) && attr_step_plain (snd s)) (p_steps p).
-
-Definition guard_path (p : path) : bool := no_left_of_any p && steps_guard p.
+Definition guard_path (p : path) : bool := no_left_of_any p.
 Definition guard (P : pattern) : bool := forallb guard_path P.
 
 (* syntactic well-formedness: at least one step unless the head stands alone; a relative path starts
@@ -389,7 +354,7 @@ Fixpoint ceval (D : doc) (p : cpred) (n pos size : nat) : pval :=
   | CNum k => PN k
   | CLastNum => PN size
   | CPosMod m r => PB (match m with 0 => false | _ => (pos mod m) =? r end)
-  | CHasAttr a => PB (existsb (fun m => attr_test_spec (TName a) (kind_of D m)) (attributes D n))
+  | CHasAttr a => PB (existsb (fun m => attr_test (TName a) (kind_of D m)) (attributes D n))
   | CHasChild t => PB (existsb (fun m => child_test t (kind_of D m)) (children D n))
   | CCount t => PN (length (filter (fun m => child_test t (kind_of D m)) (children D n)))
   | CParent t => PB (match parent D n with Some p => child_test t (kind_of D p) | None => false end)
@@ -419,8 +384,4 @@ Definition c_match (D : doc) (P : list cpath) (n : nat) : bool := matches D (map
 Definition c_select (D : doc) (P : list cpath) (n : nat) : bool := selectsb D (map (path_of D) P) n.
 Definition c_guard (D : doc) (P : list cpath) : bool := guard (map (path_of D) P).
 Definition c_no_left_of_any (D : doc) (P : list cpath) : bool := forallb no_left_of_any (map (path_of D) P).
-Definition c_steps_g2 (D : doc) (P : list cpath) : bool :=
-  forallb (fun p => forallb (fun s => no_child_node_test (snd s)) (p_steps p)) (map (path_of D) P).
-Definition c_steps_g3 (D : doc) (P : list cpath) : bool :=
-  forallb (fun p => forallb (fun s => attr_step_plain (snd s)) (p_steps p)) (map (path_of D) P).
 Definition c_shape (D : doc) (P : list cpath) : bool := forallb wf_path_shape (map (path_of D) P).
